@@ -204,27 +204,28 @@ pub fn gen_points(r: &mut Rng, d: usize, n: usize, arb: bool, fam: u64) -> (Stri
             )
         }
         12 => {
-            // f64 coordinates beyond the binary32 range on one side or on both (+-inf as f32),
-            // mixed with ordinary points
-            let both = r.chance(1, 2);
-            let neg = r.chance(1, 2);
+            // finite f64 coordinates beyond the binary32 range (`as f32` would be +-inf; the
+            // clamped cast gives +-f32::MAX): one outlier, both ends, every point beyond the
+            // range, or mixed with ordinary points
+            let mags = [3.5e38f64, 1e39, 1e60, 1e150, 1e300];
+            let mode = r.below(4);
+            let neg_side = r.chance(1, 2);
             (
                 "beyond_f32",
                 (0..n)
                     .map(|i| {
                         (0..d)
                             .map(|j| {
-                                if j == 0 && (i < 2 || r.chance(1, 6)) {
-                                    let s = if both {
-                                        if i % 2 == 0 { 1.0 } else { -1.0 }
-                                    } else if neg {
-                                        -1.0
-                                    } else {
-                                        1.0
-                                    };
-                                    s * *r.pick(&[1e39f64, 3.5e38, 1e60])
-                                } else {
-                                    r.range(-8, 8) as f64
+                                let ordinary = r.range(-8, 8) as f64;
+                                let m = *r.pick(&mags);
+                                if j != 0 {
+                                    return if mode == 3 && r.chance(1, 8) { m } else { ordinary };
+                                }
+                                match mode {
+                                    0 => if i == 0 { if neg_side { -m } else { m } } else { ordinary },
+                                    1 => if i == 0 { m } else if i == 1 { -m } else { ordinary },
+                                    2 => if r.chance(1, 2) { m } else { -m },
+                                    _ => if r.chance(1, 4) { if r.chance(1, 2) { m } else { -m } } else { ordinary },
                                 }
                             })
                             .collect()
@@ -323,7 +324,9 @@ pub fn gen_case(r: &mut Rng, _tier: &str, c04: bool, big: bool) -> Case {
         3 => 0.5,
         _ => r.below(501) as f64 / 1000.0,
     };
-    let rib = !big && r.chance(1, 4);
+    // Rib is not run on magnitudes whose squares overflow f64 (known finding of C01,
+    // class obb-coordinate-overflow: the inertia matrix becomes infinite)
+    let rib = !big && r.chance(1, 4) && !pts.iter().any(|p| p.iter().any(|x| x.abs() >= 1e150));
     let mut plen = n;
     let mut ws = ws;
     if !big && r.chance(1, 30) {
